@@ -184,6 +184,7 @@ func c16Exec(tr *vh.Transcript, ops []string) {
 			}
 		}
 	}
+	failing := false
 	for _, op := range ops {
 		f := strings.Fields(op)
 		switch f[0] {
@@ -231,6 +232,10 @@ func c16Exec(tr *vh.Transcript, ops []string) {
 			c := &vh.ChainContract{Addr: c16Addr(f[1]), Length: 3600, Speed: 1e14, Price: 1, Version: 1}
 			set(c, f[2:])
 			w.chain.Add(c)
+			if _, ok := kvOf(f[2:], "rpcfail"); ok {
+				w.chain.SetFailCalls(1) // the node refuses the call the event handler makes
+				failing = true
+			}
 			go w.chain.Emit(c16Addr("cf"), "contractCreated", c.Addr, "pubkey")
 		case "purchased":
 			c := w.chain.Get(c16Addr(f[1]))
@@ -243,6 +248,10 @@ func c16Exec(tr *vh.Transcript, ops []string) {
 				set(c, f[2:])
 				c.State = 1
 				c.StartsAt = 1700000000
+				if _, ok := kvOf(f[2:], "rpcfail"); ok {
+					w.chain.SetFailCalls(1)
+					failing = true
+				}
 				go w.chain.Emit(c16Addr("cf"), "clonefactoryContractPurchased", c.Addr, c.Validator)
 			}
 		case "purchasedslow": // like purchased, but the node's answer about the contract is held back until `rpcrelease`
@@ -303,6 +312,23 @@ func c16Exec(tr *vh.Transcript, ops []string) {
 			}
 		}
 		synctest.Wait()
+		if failing {
+			// the handler could not read the contract: the manager ends with the error, the process with it, and its
+			// supervisor starts it again
+			failing = false
+			w.chain.SetFailCalls(0)
+			select {
+			case <-w.done:
+				w.cancel()
+				synctest.Wait()
+				w.rec.Mu.Lock()
+				delete(w.rec.Streams, "mgr")
+				w.rec.Mu.Unlock()
+				w.start()
+				synctest.Wait()
+			default:
+			}
+		}
 		tr.Op("%s", op)
 		w.flushSorted(tr)
 		tr.Out("watched %s", w.watched())
@@ -352,6 +378,7 @@ func c16Gen(r *vh.Rng, orderly bool) []string {
 	} else {
 		ops = append(ops, "startmgr")
 	}
+	started := true
 	n := 4 + r.Intn(14)
 	for i := 0; i < n; i++ {
 		c := vh.Pick(r, names)
@@ -359,12 +386,26 @@ func c16Gen(r *vh.Rng, orderly bool) []string {
 		switch k := r.Intn(100); {
 		case k < 15 && !s.exists:
 			s.exists, s.seller = true, vh.Pick(r, who)
-			ops = append(ops, fmt.Sprintf("created %s seller=%s", c, s.seller))
+			if started && r.Bool(12) {
+				ops = append(ops, fmt.Sprintf("created %s seller=%s rpcfail=1", c, s.seller))
+				for _, x := range cs {
+					x.stale = false
+				}
+			} else {
+				ops = append(ops, fmt.Sprintf("created %s seller=%s", c, s.seller))
+			}
 		case k < 50 && s.exists && !s.running:
 			b, v := vh.Pick(r, who), vh.Pick(r, []string{"-", "me", "o1"})
 			s.running, s.mine = true, b == "me" || v == "me"
 			s.buyer, s.validator = b, v
-			ops = append(ops, fmt.Sprintf("purchased %s buyer=%s validator=%s", c, b, v))
+			if r.Bool(12) {
+				ops = append(ops, fmt.Sprintf("purchased %s buyer=%s validator=%s rpcfail=1", c, b, v))
+				for _, x := range cs {
+					x.stale = false
+				}
+			} else {
+				ops = append(ops, fmt.Sprintf("purchased %s buyer=%s validator=%s", c, b, v))
+			}
 		case k < 58 && s.running && s.mine && s.seller != "me" && !orderly && r.Bool(50):
 			// close followed closely by re-purchase: the purchase event is being handled (its eth_call in flight)
 			// while the ended purchase's controller returns
